@@ -639,12 +639,14 @@ def correspondence(ctx):
 
 
 def search(ctx):
-    """a broken obligation (e.g. check_perm_table on today's table) points at a verb: the wire stream
-    above already exercises every permission-checked verb; rerun it with the thorough budget"""
+    """a broken obligation (e.g. check_perm_table or check_worker_paths on today's source) points at a verb: the wire
+    streams above already exercise every permission-checked verb and every transfer worker; rerun them with the
+    thorough budget"""
     if ctx.violations or ctx.tier == "thorough":
         return
     try:
         ctx.tier = "thorough"
+        stream_interleave(ctx, [])
         stream_wire(ctx)
     except Exception as e:
         ctx.notes.append(f"search aborted: {e!r}")
